@@ -89,6 +89,31 @@ theorem c13_substitution_rejected (a : Addr) (hw : Bytes.WF a.hash) (hlen : a.ha
   · rw [toStr_friendly_none a url b t hwc] at hs
     cases hs
 
+/-- RAW ROUND TRIP.  Whenever the raw text `"{wc}:{hash.hex()}"` exists (any integer workchain whose `str()`
+exists, i.e. at most 4300 digits; any non-empty hash — in particular every 32-byte account id),
+`Address(text)` has the same workchain and hash, and both flags false. -/
+theorem c13_raw_roundtrip (a : Addr) (hw : Bytes.WF a.hash) (hne : a.hash ≠ []) (url b t : Bool)
+    (s : List Char) (hs : toStr a false url b t = some s) :
+    parse s = some { wc := a.wc, hash := a.hash, bounceable := false, testOnly := false } := by
+  simp only [toStr, Bool.not_false, if_true] at hs
+  cases hz : pyStrInt a.wc with
+  | none => rw [hz] at hs; cases hs
+  | some w =>
+    rw [hz] at hs
+    injection hs with hs
+    rw [← hs]
+    unfold parse
+    rw [isHex_raw a.wc w a.hash hz hw hne]
+
+/-- the raw text exists for every workchain of at most 4300 decimal digits (CPython's default limit). -/
+theorem c13_raw_exists (a : Addr) (h : a.wc.natAbs < 10 ^ (4299 + 1)) (url b t : Bool) :
+    (toStr a false url b t).isSome = true := by
+  have := pyStrInt_isSome a.wc h
+  simp only [toStr, Bool.not_false, if_true]
+  cases hz : pyStrInt a.wc with
+  | none => rw [hz] at this; cases this
+  | some w => rfl
+
 /-- `a == b` implies `a.__hash__() == b.__hash__()` (and therefore `hash(a) == hash(b)`). -/
 theorem c13_eq_hash (a b : Addr) (h : Address.eq a b = true) : pyHash a = pyHash b := by
   simp only [Address.eq, Bool.and_eq_true, beq_iff_eq] at h
@@ -113,5 +138,13 @@ example : parse "Ef9VVVVVVVVVVVVVVVVVVVVVVVVVVVVVVVVVVVVVVVVVVbxn".toList
 example : parse ("Ef9VVVVVVVVVVVVVVVVVVVVVVVVVVVVVVVVVVVVVVVVVVbxn".toList.set 10 'W') = none := by
   decide +kernel
 example : 'W' ∈ alphabet true := by decide +kernel
+/-- the raw form of the same address, and its parse. -/
+example : toStr sample false true true false
+    = some "-1:5555555555555555555555555555555555555555555555555555555555555555".toList := by
+  decide +kernel
+example : parse "-1:5555555555555555555555555555555555555555555555555555555555555555".toList
+    = some { wc := -1, hash := List.replicate 32 0x55 } := by
+  decide +kernel
+example : sample.hash ≠ [] := by decide
 
 end TonVerif.Properties.C13
